@@ -9,7 +9,7 @@ CONSTANTS
   SvcSizes <- MCNone
   StartSize = 24
   Size <- MCSize
-  MaxCrash = 1
+  MaxCrash = 2
   MaxReads = 1
   MaxClose = 1
   AllowDesync = FALSE
